@@ -26,11 +26,12 @@ TxUDef == <<
 >>
 AllTx == 1..15
 AllActs == {"submit", "test", "mine", "testblock", "invalidate"}
+NoTest == {"submit", "mine", "testblock", "invalidate"}
 \* scenario families: the transactions submitted on their own, and the block contents
 ActFlags == {2, 3}
 ListsFlags == { <<>>, <<2>>, <<3>> }
-ActFlags2 == {1, 2, 14}
-ListsFlags2 == { <<>>, <<2>>, <<14>>, <<1, 2>>, <<2, 14>> }
+ActFlags2 == {2, 14}
+ListsFlags2 == { <<>>, <<2>>, <<14>>, <<2, 14>> }
 ActWit == {4, 5, 15}
 ListsWit == { <<>>, <<4>>, <<5>>, <<4, 15>>, <<15>> }
 ActSig == {6, 8, 9, 10}
@@ -38,7 +39,7 @@ ListsSig == { <<6>>, <<8>>, <<9>>, <<10>> }
 ActMix == {1, 6, 8, 13}
 ListsMix == { <<>>, <<1>>, <<6>>, <<8>>, <<1, 13>>, <<13>>, <<6, 8>> }
 \* simulation: everything
-ListsAll == { <<>> } \cup { <<t>> : t \in AllTx } \cup { <<1, 13>>, <<4, 15>>, <<5, 15>>, <<2, 14>>, <<6, 8>>, <<6, 7>>, <<9, 6>>, <<12, 1>>, <<3, 11>>, <<13, 1>> }
+ListsAll == { <<>> } \cup { <<t>> : t \in AllTx \ {11, 13, 15} } \cup { <<1, 13>>, <<4, 15>>, <<5, 15>>, <<2, 14>>, <<6, 8>>, <<9, 6>> }
 FH1 == [CLTV |-> 106]
 FH2 == [CLTV |-> 106, CSV |-> 107]
 ====
